@@ -289,8 +289,10 @@ def _worker(args):
 
     viol = None
     err = None
+    import hypothesis.reporting as hrep
     try:
-        t()
+        with hrep.with_reporter(lambda *a, **k: None):
+            t()
     except Violation as v:
         viol = last.get('v', v)
     except BaseException as e:  # harness problem: report, do not turn into a violation
